@@ -267,6 +267,7 @@ class Index:
                         ci.bases.append(s.cls)
                     else:
                         ci.ext_bases.append(ast.unparse(bb))
+        self._expand_registries()
         # `__hash__ = hash_by_uuid` in a class body: a module-level function of the package installed as a method (its first
         # parameter receives the instance); the function's own module is where its names resolve
         self.node_home: Dict[int, Module] = {}
@@ -283,6 +284,109 @@ class Index:
                                 and ":" in sy.qual and "." not in sy.qual.split(":")[1] and sy.node.args.args:
                             ci.methods.setdefault(st.targets[0].id, []).append(sy.node)
                             self.node_home[id(sy.node)] = sy.module
+
+    # ------------------------------------------------------------------ decorator registries
+    @staticmethod
+    def _registry_pattern(cls_node: ast.ClassDef):
+        """(register method name, table attribute, key expression, key variable) when the class is a table filled through a
+        decorator -- `def register(self, *keys): def deco(h): for k in keys: self.T[E(k)] = h; return h; return deco` -- and only
+        read otherwise; else None"""
+        found = None
+        for st in cls_node.body:
+            if not isinstance(st, ast.FunctionDef) or st.name.startswith("__"):
+                continue
+            inner = [x for x in st.body if isinstance(x, ast.FunctionDef)]
+            rets = [x for x in st.body if isinstance(x, ast.Return)]
+            if len(inner) != 1 or len(rets) != 1 or not isinstance(rets[0].value, ast.Name) or rets[0].value.id != inner[0].name:
+                continue
+            d = inner[0]
+            if len(d.args.args) != 1 or not d.body or not isinstance(d.body[-1], ast.Return) or not isinstance(d.body[-1].value, ast.Name) \
+                    or d.body[-1].value.id != d.args.args[0].arg:
+                continue
+            h = d.args.args[0].arg
+            keysrc = st.args.vararg.arg if st.args.vararg else (st.args.args[1].arg if len(st.args.args) == 2 else None)
+            if keysrc is None:
+                continue
+            body = d.body[:-1]
+            var = keysrc
+            if len(body) == 1 and isinstance(body[0], ast.For) and isinstance(body[0].target, ast.Name) and isinstance(body[0].iter, ast.Name) \
+                    and body[0].iter.id == keysrc and st.args.vararg and not body[0].orelse:
+                var = body[0].target.id
+                body = body[0].body
+            elif st.args.vararg:
+                continue
+            if len(body) != 1 or not isinstance(body[0], ast.Assign) or len(body[0].targets) != 1:
+                continue
+            t = body[0].targets[0]
+            if not (isinstance(t, ast.Subscript) and isinstance(t.value, ast.Attribute) and isinstance(t.value.value, ast.Name) and t.value.value.id == "self"
+                    and isinstance(body[0].value, ast.Name) and body[0].value.id == h):
+                continue
+            found = (st.name, t.value.attr, t.slice, var, bool(st.args.vararg))
+        if found is None:
+            return None
+        # nothing else writes the table
+        for st in cls_node.body:
+            if isinstance(st, ast.FunctionDef) and st.name != found[0]:
+                for x in ast.walk(st):
+                    if isinstance(x, ast.Subscript) and isinstance(x.ctx, (ast.Store, ast.Del)) and isinstance(x.value, ast.Attribute) and x.value.attr == found[1]:
+                        return None
+                    if isinstance(x, ast.Attribute) and x.attr == found[1] and isinstance(x.ctx, ast.Store) and st.name != "__init__":
+                        return None
+        return found
+
+    def _expand_registries(self):
+        """`REG = Registry(...)` + `@REG.register(K1, K2) def f ...` is the table `REG = {E(K1): f, E(K2): f, ...}` (in definition order,
+        decorators bottom-up): the assignment gets the dictionary display as its value and the functions lose the decorator, so that
+        `REG.get(k)`, `REG[k]`, `k in REG` are read as lookups in a literal table"""
+        import copy
+        patterns = {}
+        for m in self.modules.values():
+            for ci in m.classes.values():
+                pat = self._registry_pattern(ci.node)
+                if pat is not None:
+                    patterns[ci.qual] = pat
+        if not patterns:
+            return
+        for m in self.modules.values():
+            for name, defs in list(m.defs.items()):
+                for st in defs:
+                    if not isinstance(st, (ast.Assign, ast.AnnAssign)) or not isinstance(st.value, ast.Call):
+                        continue
+                    f = st.value.func
+                    if isinstance(f, ast.Subscript):
+                        f = f.value
+                    try:
+                        sy = self.resolve_expr(m, f)
+                    except Exception:  # noqa: BLE001
+                        sy = None
+                    if sy is None or sy.kind != "class" or sy.qual not in patterns:
+                        continue
+                    reg, _, keyexpr, var, _ = patterns[sy.qual]
+                    keys, vals = [], []
+                    for fn in m.tree.body:
+                        if not isinstance(fn, ast.FunctionDef):
+                            continue
+                        keep = []
+                        mine = []
+                        for dec in fn.decorator_list:
+                            if isinstance(dec, ast.Call) and isinstance(dec.func, ast.Attribute) and dec.func.attr == reg and isinstance(dec.func.value, ast.Name) \
+                                    and dec.func.value.id == name and not dec.keywords and not any(isinstance(a, ast.Starred) for a in dec.args):
+                                mine.append(dec)
+                            else:
+                                keep.append(dec)
+                        if not mine:
+                            continue
+                        for dec in reversed(mine):  # decorators apply bottom-up
+                            for k in dec.args:
+                                class _S(ast.NodeTransformer):
+                                    def visit_Name(self_, x):
+                                        return copy.deepcopy(k) if x.id == var else x
+                                keys.append(ast.copy_location(_S().visit(copy.deepcopy(keyexpr)), dec))
+                                vals.append(ast.copy_location(ast.Name(id=fn.name, ctx=ast.Load()), dec))
+                        fn.decorator_list = keep
+                    if keys:
+                        st.value = ast.copy_location(ast.Dict(keys=keys, values=vals), st.value)
+                        ast.fix_missing_locations(st)
 
     # ------------------------------------------------------------------ digests / stats
     def digest(self) -> str:
